@@ -498,8 +498,8 @@ func FuncPrintName(f Funky) string {
 	if pkg == nil || pkg == CurrentPackage {
 		return name
 	}
-	fi := pkg.funcs[name]
-	if fi == nil || CurrentPackage.funcs[name] == fi {
+	fi := pkg.GetFunc(name)
+	if fi == nil || CurrentPackage.GetFunc(name) == fi {
 		return name
 	}
 	if fi.Export {
